@@ -82,6 +82,24 @@ Theorem C09_docenc_index_select_encode_nul :
 Proof. exact docenc_index_select_encode_nul_proof. Qed.
 Print Assumptions C09_docenc_index_select_encode_nul.
 
+(* command-line index arguments: "N" (decimal digits, 1 <= N < 2^16) denotes document N, "M-N" the
+   documents M..N; digits_value is the usual positional value.  (parse_range also models the lenient
+   forms libstdc++ accepts - leading blanks, a sign - and the rejections; those are tied to the tool
+   by the correspondence run only.) *)
+Theorem C09_index_argument_single :
+  forall ds, ds <> [] -> forallb is_digit ds = true -> 1 <= digits_value ds 0 < 65536 ->
+  parse_range ds = ArgIndices [Z.to_nat (digits_value ds 0)].
+Proof. exact parse_single_index_proof. Qed.
+Print Assumptions C09_index_argument_single.
+
+Theorem C09_index_argument_range :
+  forall ds1 ds2, ds1 <> [] -> ds2 <> [] -> forallb is_digit ds1 = true -> forallb is_digit ds2 = true ->
+  1 <= digits_value ds1 0 <= digits_value ds2 0 -> digits_value ds2 0 < 65536 ->
+  parse_range (ds1 ++ 45 :: ds2) =
+    ArgIndices (seq (Z.to_nat (digits_value ds1 0)) (Z.to_nat (digits_value ds2 0 - digits_value ds1 0 + 1))).
+Proof. exact parse_index_range_proof. Qed.
+Print Assumptions C09_index_argument_range.
+
 (* non-vacuity: the hypotheses are met by concrete non-trivial data *)
 Example C09_nonvacuous_roundtrip :
   bytes_okb [0; 255; 16; 131; 77] = true /\
@@ -98,4 +116,16 @@ Example C09_nonvacuous_docenc :
   forallb (fun d => bytes_okb (doc_text d)) [[[97; 13]; [98]]; []; [[13]]] = true /\
   b64_file (map doc_text [[[97; 13]; [98]]; []; [[13]]]) = [89; 81; 48; 75; 89; 103; 111; 61; 10; 10; 68; 81; 111; 61; 10] /\
   decode_tool 10 [3; 1; 3]%nat (b64_file (map doc_text [[[97; 13]; [98]]; []; [[13]]])) = TOk [97; 13; 10; 98; 10; 10; 13; 10; 10].
+Proof. vm_compute. repeat split. Qed.
+
+Example C09_nonvacuous_nul_separator :
+  forallb bytes_okb [[97; 13]; []; [10; 10; 98]] = true /\ forallb (no_delim 0) [[97; 13]; []; [10; 10; 98]] = true /\
+  decode_tool 0 [] (b64_file [[97; 13]; []; [10; 10; 98]]) = TOk [97; 13; 0; 0; 10; 10; 98; 0] /\
+  encode_tool 0 [3; 1]%nat (decoded_stream 0 [[97; 13]; []; [10; 10; 98]]) = TOk (b64_file [[97; 13]; [10; 10; 98]]).
+Proof. vm_compute. repeat split. Qed.
+
+Example C09_nonvacuous_index_arguments :
+  parse_range [49; 50] = ArgIndices [12%nat] /\ parse_range [50; 45; 52] = ArgIndices [2; 3; 4]%nat /\
+  parse_range [48] = ArgUsage /\ parse_range [52; 45; 50] = ArgUsage /\ parse_range [49; 45] = ArgFile /\
+  parse_args [[51]; [49; 45; 50]] = Some [3; 1; 2]%nat.
 Proof. vm_compute. repeat split. Qed.
